@@ -4,41 +4,41 @@
 From Coq Require Import List NArith ZArith Bool Lia.
 From ApiFu Require Import Base.Sexp Fut.Plan Fut.Future Fut.ExecAsync Fut.ExecSync Fut.Denote Fut.FutSpec
      Fut.AsyncRun Fut.FutProofs Fut.BridgeC01 Fut.BridgeProofs Fut.BridgeNulls Fut.BridgeCands.
-From ApiFu Require Exe.ExecData Exe.ExecSpec Exe.ExecModel Exe.ExecHyps Exe.ExecProofs.
+From ApiFu Require ExeA.ArgData ExeA.ArgArgs ExeA.ArgSpec ExeA.ArgModel ExeA.ArgHyps ExeA.ArgProofs ExeA.ArgRequestProofs Val.Values.
 Import ListNotations.
 
 Lemma same_outcomes_ddata a b : same_outcomes a b -> ddata a = ddata b.
 Proof. unfold same_outcomes. intros H. rewrite <- (strip_ddata a), H. apply strip_ddata. Qed.
 
 Theorem schedule_yields_reference_data
-  (code : ExecData.json -> Z) S Doc E fuel n W d errs md root sigma fuelr jfuel :
-  ExecHyps.type_names_okb S = true -> ExecHyps.doc_positions_okb Doc = true ->
-  ExecSpec.doc_ok S Doc E fuel n = true ->
-  ExecModel.run ExecModel.fixed S Doc E fuel W = ExecModel.Done d errs ->
+  (code : ArgData.json -> Z) S Doc E fuel n W d errs md root sigma fuelr jfuel :
+  ArgHyps.type_names_okb S = true -> ArgHyps.doc_positions_okb Doc = true ->
+  ArgSpec.doc_ok S Doc E fuel n = true ->
+  ArgModel.run ArgModel.fixed S Doc E fuel W = ArgModel.Done d errs ->
   same_outcomes root (plan_of code S Doc E fuel W) ->
   fair sigma -> count_async root <= fuelr -> resp_depth root < jfuel ->
   exists r, run fixed_flags sigma md fuelr jfuel root = Done r /\
             r_data r = tr_data code d /\
-            r_data r = tr_data code (ExecSpec.data (ExecSpec.exec_spec S Doc E fuel W)) /\
+            r_data r = tr_data code (ArgSpec.data (ArgSpec.exec_spec S Doc E fuel W)) /\
             conforms root (r_data r) (r_errors r).
 Proof.
   intros Hn Hp Hd Hr Same Fa Hf Hj.
   destruct (run_conforms md sigma fuelr jfuel root Fa Hf Hj) as (r & Er & C & Ds & _).
   exists r. split; auto.
-  assert (X : r_data r = tr_data code (ExecSpec.data (ExecSpec.exec_spec S Doc E fuel W))).
+  assert (X : r_data r = tr_data code (ArgSpec.data (ArgSpec.exec_spec S Doc E fuel W))).
   { rewrite Ds. unfold data_shape. rewrite (same_outcomes_ddata _ _ Same). apply bridge_data. }
   split; [|split; auto].
-  rewrite X. f_equal. symmetry. exact (ExecProofs.exec_data_eq S Doc E fuel Hn Hp n Hd W d errs Hr).
+  rewrite X. f_equal. symmetry. exact (ArgProofs.exec_data_eq S Doc E fuel Hn Hp n Hd W d errs Hr).
 Qed.
 
 (** the failure-nulls of the reference sit at the paths of the plan's visible nulls, and every one
     of them gets an error under every schedule *)
 Theorem schedule_yields_reference_nulls
-  (code : ExecData.json -> Z) S Doc E fuel W md root sigma fuelr jfuel :
+  (code : ArgData.json -> Z) S Doc E fuel W md root sigma fuelr jfuel :
   same_outcomes root (plan_of code S Doc E fuel W) ->
   fair sigma -> count_async root <= fuelr -> resp_depth root < jfuel ->
   exists r, run fixed_flags sigma md fuelr jfuel root = Done r /\
-            null_paths (ExecSpec.failure_nulls (ExecSpec.exec_spec S Doc E fuel W)) = site_paths (visible_nulls root) /\
+            null_paths (ArgSpec.failure_nulls (ArgSpec.exec_spec S Doc E fuel W)) = site_paths (visible_nulls root) /\
             Forall (fun x => exists e, In e (r_errors r) /\ lands e x) (visible_nulls root).
 Proof.
   intros Same Fa Hf Hj.
@@ -52,15 +52,15 @@ Qed.
     reference of the GraphQL algorithm (source locations erased on C01's side, error kinds on this
     side, leaf values through [code]) *)
 Theorem schedule_yields_reference_response
-  (code : ExecData.json -> Z) S Doc E fuel n W d errs md root sigma fuelr jfuel :
-  ExecHyps.type_names_okb S = true -> ExecHyps.doc_positions_okb Doc = true ->
-  ExecSpec.doc_ok S Doc E fuel n = true ->
-  ExecModel.run ExecModel.fixed S Doc E fuel W = ExecModel.Done d errs ->
+  (code : ArgData.json -> Z) S Doc E fuel n W d errs md root sigma fuelr jfuel :
+  ArgHyps.type_names_okb S = true -> ArgHyps.doc_positions_okb Doc = true ->
+  ArgSpec.doc_ok S Doc E fuel n = true ->
+  ArgModel.run ArgModel.fixed S Doc E fuel W = ArgModel.Done d errs ->
   same_outcomes root (plan_of code S Doc E fuel W) ->
   fair sigma -> count_async root <= fuelr -> resp_depth root < jfuel ->
   exists r, run fixed_flags sigma md fuelr jfuel root = Done r /\
             r_data r = tr_data code d /\
-            null_sites (ExecSpec.failure_nulls (ExecSpec.exec_spec S Doc E fuel W)) = plan_sites (visible_nulls root) /\
+            null_sites (ArgSpec.failure_nulls (ArgSpec.exec_spec S Doc E fuel W)) = plan_sites (visible_nulls root) /\
             conforms root (r_data r) (r_errors r).
 Proof.
   intros Hn Hp Hd Hr Same Fa Hf Hj.
@@ -69,4 +69,25 @@ Proof.
   exists r. split; auto. split; auto. split; auto.
   rewrite (bridge_candidates code S Doc E fuel n W Hd). f_equal.
   unfold same_outcomes in Same. rewrite <- (strip_visible root), Same. symmetry. apply strip_visible.
+Qed.
+
+(** the same for a whole request (operation selection and variable coercion in front, C01's
+    [run_request]): when the request determines an operation and its variables coerce *)
+Theorem schedule_yields_request_response
+  (code : ArgData.json -> Z) S R opname raw fuel n W o vv d errs md root sigma fuelr jfuel :
+  ArgSpec.s_get_operation R (ArgSpec.opname_of opname) = Some o ->
+  ArgModel.coerce_request_vars S o raw = Values.Ok vv ->
+  ArgHyps.type_names_okb S = true -> ArgHyps.doc_positions_okb (ArgData.doc_of R o vv) = true ->
+  ArgSpec.doc_ok S (ArgData.doc_of R o vv) (ArgArgs.env_of_vars vv) fuel n = true ->
+  ArgModel.run_request ArgModel.fixed S R opname raw fuel W = ArgModel.Done d errs ->
+  same_outcomes root (plan_of code S (ArgData.doc_of R o vv) (ArgArgs.env_of_vars vv) fuel W) ->
+  fair sigma -> count_async root <= fuelr -> resp_depth root < jfuel ->
+  exists r, run fixed_flags sigma md fuelr jfuel root = Done r /\
+            r_data r = tr_data code d /\
+            null_sites (ArgSpec.failure_nulls (ArgSpec.exec_spec S (ArgData.doc_of R o vv) (ArgArgs.env_of_vars vv) fuel W)) =
+            plan_sites (visible_nulls root) /\
+            conforms root (r_data r) (r_errors r).
+Proof.
+  intros Ho Hv Hn Hp Hd Hr. rewrite (ArgRequestProofs.run_request_selected _ _ _ _ _ _ _ o vv Ho Hv) in Hr.
+  now apply (schedule_yields_reference_response code S _ _ fuel n W d errs).
 Qed.
